@@ -18,7 +18,7 @@ use std::collections::BTreeMap;
 const PROP: &str = "C19";
 
 const SHAPES: [&str; 10] = ["flag-short", "flag-long", "flag-both", "count-short", "opt-short", "opt-both", "opt-optional", "pos-required", "pos-optional", "pos-multi"];
-const MODS: [&str; 11] = ["none", "hide", "heading", "heading-upper", "env", "default", "possible-values", "possible-values-help", "long-help", "hide-short-help", "value-names"];
+const MODS: [&str; 13] = ["none", "hide", "heading", "heading-upper", "env", "default", "possible-values", "possible-values-help", "long-help", "hide-short-help", "value-names", "hide+heading", "hide+heading+possible-values-help"];
 const ROOTS: [&str; 8] = ["none", "version", "long-version", "author", "after-help", "long-about", "before-help", "sub-heading"];
 
 fn mk_arg(n: usize, shape: &str, m: &str) -> ArgSpec {
@@ -58,6 +58,7 @@ fn mk_arg(n: usize, shape: &str, m: &str) -> ArgSpec {
         a.value_names = vec![format!("VAL{}", n)];
     }
     a.help = Some(format!("HELPMARK{}", n));
+    for m in m.split('+') {
     match m {
         "hide" => a.hide = true,
         "heading" => a.help_heading = Some("Customhead".into()),
@@ -79,6 +80,7 @@ fn mk_arg(n: usize, shape: &str, m: &str) -> ArgSpec {
             a.value_names = vec![format!("VAL{}A", n), format!("VAL{}B", n)];
         }
         _ => {}
+    }
     }
     a
 }
@@ -320,7 +322,7 @@ fn main() {
     for s in 0..SHAPES.len() {
         for m in 0..MODS.len() {
             for s2 in 0..SHAPES.len() {
-                for m2 in [0usize, 1, 2, 3] {
+                for m2 in [0usize, 1, 2, 3, 11, 12] {
                     cfgs.push((vec![(s, m), (s2, m2)], 0));
                 }
             }
@@ -331,7 +333,7 @@ fn main() {
         Tier::Quick => lines.iter().filter(|l| l.len() <= 3).take(30).cloned().collect(),
         Tier::Thorough => lines.clone(),
     };
-    rep.rule("part 1: block = man-page configuration (<= 2 arguments from 10 shapes x 11 modifiers incl. headings that differ only in case, 8 root metadata variants, one visible and one hidden subcommand); Man::render twice + every render_*_section; coverage and hidden-marker clauses on the un-escaped text. part 2: block = (text slot, first line), case = optional second line; the page with the hostile text and the page with innocuous text of identical line structure must have the same multiset of control-line requests. non-trivial = part-2 cases (a control-line comparison was made)");
+    rep.rule("part 1: block = man-page configuration (<= 2 arguments from 10 shapes x 13 modifiers incl. headings that differ only in case and hidden arguments under a heading shared with a visible one, 8 root metadata variants, one visible and one hidden subcommand); Man::render twice + every render_*_section; coverage and hidden-marker clauses on the un-escaped text. part 2: block = (text slot, first line), case = optional second line; the page with the hostile text and the page with innocuous text of identical line structure must have the same multiset of control-line requests. non-trivial = part-2 cases (a control-line comparison was made)");
     rep.set("bounds", json!({"coverage_configurations": cfgs.len(), "text_slots": SLOTS, "atoms": ATOMS, "first_lines": lines.len(), "second_lines": second.len() + 1}));
     rep.assume("a roff control line is a line beginning with `.` or `'`; its request is the following word (R10)");
 
